@@ -17,7 +17,6 @@ import (
 	"github.com/nuts-foundation/nuts-node/auth"
 	"github.com/nuts-foundation/nuts-node/auth/client/iam"
 	"github.com/nuts-foundation/nuts-node/auth/oauth"
-	"github.com/nuts-foundation/nuts-node/crypto/jwx"
 	"github.com/nuts-foundation/nuts-node/vdr/resolver"
 	"go.uber.org/mock/gomock"
 	"pgregory.net/rapid"
@@ -77,7 +76,7 @@ func c17JarGen(t *rapid.T) c17JarCase {
 func c17JarRun(x *h.Ctx, c c17JarCase) {
 	w := jose.World{
 		KeyRef:        "kid",
-		Allowed:       jwx.SupportedAlgorithmsAsStrings(),
+		Allowed:       jose.NodeAllowed,
 		IdentityBound: true,
 		Kids: map[string]string{jose.Victim: c17JarVictimDID + "#0", jose.Attacker: jose.NearKid(c17JarVictimDID, "did:web:example.com:iam:attacker", "0", c.V.Near),
 			"unknown": "did:web:example.com:iam:nobody#0"},
